@@ -77,5 +77,7 @@ def base_json(text: str, mnemonics: set[str], max_runs: int = 10) -> dict:
             if depths[k - 1] == 0:
                 runs.append([i, k])
     step = max(1, len(runs) // max_runs)
-    runs = runs[::step][:max_runs]
+    # always keep the one-line runs whose line ends in a one-digit literal (what an included file may end with)
+    keep = [r for r in runs if r[0] == r[1] and re.search(r"(?<![0-9A-Za-z_])[0-9]$", raw[r[0] - 1].strip())]
+    runs = runs[::step][:max_runs] + [r for r in keep[:4] if r not in runs[::step][:max_runs]]
     return {"lines": lines, "runs": runs, "text": "\n".join("".join(p["s"] for p in l) for l in lines) + "\n"}
